@@ -17,6 +17,17 @@ ends the aliasing), path-insensitive (both branches of every test are taken, loo
 entered from every point of the try body) and interprocedural through summaries computed to a global
 fixpoint (mutated parameters, returned aliases, hidden-state stores).
 
+Callables are values too (Val.fns): a name bound to a repository function, a nested helper, a class, a bound
+method (`self.m`, `obj.m`), `Class.m`, a lambda, or a conditional expression / container of such is a may-point-to
+set of closures; calling it applies the union of the callees' summaries (lambdas are evaluated in place with the
+actual arguments).  A call through a callable *parameter* (or captured variable) is recorded in the summary
+(pcalls, with the "result of that call" as an origin of its own) and replayed at every call site with the actual
+callables, so helpers that receive accessors / bound methods / lambdas are resolved interprocedurally; returned
+closures are translated into the caller's origin space.  Writes of a nested helper to variables it captures are
+judged at its call sites with the bindings current there (a helper that escapes - passed on, returned, stored -
+falls back to every origin the variable ever held).  A callable of unknown provenance (result of a call, dynamic
+getattr on self, attribute holding a function) called with a tracked argument raises AnalysisError.
+
 Library model (trusted base, Appendix E of DESIGN.md): the tables LIB_VIEW / LIB_FRESH / LIB_INPLACE /
 METHOD_* below.  An external callable or method that receives or is applied to a parameter-aliased value and
 is missing from the tables raises AnalysisError (exit 2) - the model cannot silently rot.
@@ -159,13 +170,40 @@ BUILTIN_FRESH = {"len", "sum", "abs", "float", "int", "bool", "str", "repr", "co
                  "DeprecationWarning", "RuntimeWarning", "locals", "globals", "dir", "memoryview", "bin", "hex", "oct"}
 
 
+class Closure:
+    """A callable value: a repository function / method (optionally bound: captured "__self__"), a repository
+    class, or a lambda.  `captured` maps captured variable names to their abstract values, expressed in the origin
+    space of the function that currently holds the closure (translated when it crosses a call boundary)."""
+    __slots__ = ("kind", "code", "captured", "_key")
+
+    def __init__(self, kind, code, captured=()):
+        self.kind, self.code = kind, code           # "func": FuncInfo | "class": ClassInfo | "lambda": (node, FuncInfo)
+        self.captured = tuple(sorted(dict(captured).items(), key=lambda kv: kv[0]))
+        ident = (id(code[0]), id(code[1])) if kind == "lambda" else id(code)
+        self._key = (kind, ident, self.captured)
+
+    def __eq__(self, o):
+        return isinstance(o, Closure) and self._key == o._key
+
+    def __hash__(self):
+        return hash(self._key)
+
+    def cap(self):
+        return dict(self.captured)
+
+    def __repr__(self):
+        nm = "lambda" if self.kind == "lambda" else getattr(self.code, "qualname", getattr(self.code, "name", "?"))
+        return f"<{self.kind} {nm}>"
+
+
 class Val:
     """direct / inner origin sets; arr = the value is certainly a fresh numpy array (or scalar): a store into it
-    copies data, so it never comes to *hold* a reference to the stored value."""
-    __slots__ = ("direct", "inner", "arr")
+    copies data, so it never comes to *hold* a reference to the stored value; fns = callables the value may be."""
+    __slots__ = ("direct", "inner", "arr", "fns")
 
-    def __init__(self, direct=frozenset(), inner=frozenset(), arr=False):
+    def __init__(self, direct=frozenset(), inner=frozenset(), arr=False, fns=frozenset()):
         self.direct, self.inner, self.arr = frozenset(direct), frozenset(inner), bool(arr)
+        self.fns = frozenset(fns)
 
     def all(self):
         return self.direct | self.inner
@@ -173,19 +211,22 @@ class Val:
     def join(self, other):
         if other is None:
             return self
-        return Val(self.direct | other.direct, self.inner | other.inner, self.arr and other.arr)
+        return Val(self.direct | other.direct, self.inner | other.inner, self.arr and other.arr, self.fns | other.fns)
 
     def __eq__(self, o):
-        return isinstance(o, Val) and self.direct == o.direct and self.inner == o.inner and self.arr == o.arr
+        return (isinstance(o, Val) and self.direct == o.direct and self.inner == o.inner and self.arr == o.arr
+                and self.fns == o.fns)
 
     def __hash__(self):
-        return hash((self.direct, self.inner, self.arr))
+        return hash((self.direct, self.inner, self.arr, self.fns))
 
     def __bool__(self):
+        """tracked: the value may be (or hold) an object reachable from a parameter / captured variable / global"""
         return bool(self.direct or self.inner)
 
     def __repr__(self):
-        return f"Val({set(self.direct) or ''}|{set(self.inner) or ''}{'|arr' if self.arr else ''})"
+        return (f"Val({set(self.direct) or ''}|{set(self.inner) or ''}{'|arr' if self.arr else ''}"
+                f"{'|' + repr(set(self.fns)) if self.fns else ''})")
 
 
 EMPTY = Val()
@@ -195,14 +236,19 @@ FRESH_ARRAY = Val(arr=True)
 def element_of(v: Val) -> Val:
     """Value obtained by indexing / iterating / attribute access: a view of an array stays the array's
     origin, an element of a fresh container is whatever the container holds."""
-    return Val(v.direct | v.inner, v.inner, v.arr and not v)
+    return Val(v.direct | v.inner, v.inner, v.arr and not v, v.fns)
 
 
 def container_of(*vals) -> Val:
-    s = frozenset()
+    s, f = frozenset(), frozenset()
     for v in vals:
         s |= v.direct | v.inner
-    return Val(frozenset(), s)
+        f |= v.fns
+    return Val(frozenset(), s, fns=f)
+
+
+def strip_fns(v: Val) -> Val:
+    return Val(v.direct, v.inner, v.arr) if v.fns else v
 
 
 def with_attr(origins, attr):
@@ -225,15 +271,17 @@ class Summary:
 
     def __init__(self):
         self.mut = {}          # param index -> set of (attr, kind, via)
-        self.ret = set()       # ("p", index) | ("global", name) origins the result may alias
+        self.ret = set()       # ("p", index) | ("global", name) | ("free", name) origins the result may alias
+        self.ret_val = EMPTY   # the returned value in the callee's origin space (carries returned callables)
         self.mut_free = {}     # captured variable name -> set of (attr, kind, via)
         self.state = set()     # (kind, name, via): global statement / module attr / class attr / module-global object
+        self.pcalls = set()    # (("param"|"free", name), args, kwargs): calls of a callable parameter / captured variable
+        self.mut_callres = {}  # ("param"|"free", name) -> set of (attr, kind, via): writes through such a call's result
 
     def snapshot(self):
-        return (tuple(sorted((k, tuple(sorted(v, key=repr))) for k, v in self.mut.items())),
-                tuple(sorted(self.ret, key=repr)),
-                tuple(sorted((k, tuple(sorted(v, key=repr))) for k, v in self.mut_free.items())),
-                tuple(sorted(self.state, key=repr)))
+        return (frozenset((k, frozenset(v)) for k, v in self.mut.items()), frozenset(self.ret), self.ret_val,
+                frozenset((k, frozenset(v)) for k, v in self.mut_free.items()), frozenset(self.state),
+                frozenset(self.pcalls), frozenset((k, frozenset(v)) for k, v in self.mut_callres.items()))
 
 
 class _Counter:
@@ -258,12 +306,15 @@ class FuncResult:
         self.effects = []         # Effect on param / free / global origins
         self.state_effects = []   # (kind, name, via, loc)
         self.ret = set()          # origins
+        self.ret_val = None
+        self.pcalls = set()
+        self.unresolved_calls = []    # (description, loc): callables of unknown provenance called with untracked arguments
         self.ever = {}            # name -> union of origins the name ever held
         self.n_store_sites = _Counter()    # counted once per syntactic site, however often a loop body is re-analysed
         self.n_calls = _Counter()
         self.n_repo_calls = _Counter()
         self.lib_used = set()
-        self.mut_call_sites = []  # (callee qualname, callee parameter, argument tracked?, loc): calls of mutating callees
+        self.mut_call_sites = []  # (callee qualname, callee parameter, argument tracked?, loc, callee where): calls of mutating callees
         self.summary = Summary()
 
 
@@ -611,6 +662,21 @@ class FuncAnalyzer:
         self.try_accs = []
         self.loop_stack = []
         self._effect_keys = set()
+        self.ctx_fi = fi            # function whose code is being evaluated (differs from fi inside a foreign lambda)
+        self._lam_depth = 0
+        # nested helpers used other than by a direct call / a plain local alias (passed on, returned, stored)
+        self.escaped_nested = set()
+        nested = getattr(fi, "nested", {})
+        if nested:
+            par = _parents(fi.node)
+            for n in ast.walk(fi.node):
+                if isinstance(n, ast.Name) and isinstance(n.ctx, ast.Load) and n.id in nested:
+                    pn = par.get(n)
+                    if isinstance(pn, ast.Call) and pn.func is n:
+                        continue
+                    if isinstance(pn, ast.Assign) and pn.value is n and all(isinstance(t, ast.Name) for t in pn.targets):
+                        continue
+                    self.escaped_nested.add(n.id)
 
     # -- environment helpers ----------------------------------------------------------------
     @staticmethod
@@ -634,7 +700,7 @@ class FuncAnalyzer:
             acc[0] = self.join_env(acc[0], env)
 
     def loc(self, node):
-        return self.fi.loc(node)
+        return self.ctx_fi.loc(node)
 
     # -- effects --------------------------------------------------------------------------------
     def effect(self, origins, kind, node, attr=None, via=None):
@@ -669,14 +735,17 @@ class FuncAnalyzer:
 
     def finish(self):
         res, sm = self.res, self.res.summary
-        # nested helpers that write to captured variables: conservative (any origin the variable ever held)
+        # Nested helpers that write to captured variables are judged at their call sites with the bindings current
+        # there (call_repo).  A helper that escapes (passed on, returned, stored) may run at any time: conservative,
+        # any origin the variable ever held.
         for name, nfi in getattr(self.fi, "nested", {}).items():
             nsm = self.engine.summary(nfi)
             for var, effs in nsm.mut_free.items():
                 if var in self.rs.locals:
-                    for (attr, kind, via) in effs:
-                        self.effect(res.ever.get(var, frozenset()), kind, nfi.node, attr=attr,
-                                    via=via or f"nested function {nfi.name}")
+                    if name in self.escaped_nested:
+                        for (attr, kind, via) in effs:
+                            self.effect(res.ever.get(var, frozenset()), kind, nfi.node, attr=attr,
+                                        via=via or f"nested function {nfi.name}")
                 else:
                     sm.mut_free.setdefault(var, set()).update(effs)
             for (kind, nm, via) in nsm.state:
@@ -690,6 +759,10 @@ class FuncAnalyzer:
                 sm.mut_free.setdefault(n, set()).add((attr, e.kind, e.via))
             elif k == "global":
                 sm.state.add(("module-global", n, e.via))
+            elif k == "callres":
+                sm.mut_callres.setdefault(n, set()).add((attr, e.kind, e.via))
+        sm.ret_val = res.ret_val if res.ret_val is not None else EMPTY
+        sm.pcalls = set(res.pcalls)
         for (kind, nm, via, _loc) in res.state_effects:
             sm.state.add((kind, nm, via))
         for (k, n, attr) in res.ret:
@@ -727,6 +800,7 @@ class FuncAnalyzer:
             if s.value is not None:
                 v = self.ev(s.value, env)
                 self.res.ret |= v.all()
+                self.res.ret_val = v if self.res.ret_val is None else v.join(self.res.ret_val)
             return None
         if t is ast.If:
             self.ev(s.test, env)
@@ -961,31 +1035,57 @@ class FuncAnalyzer:
         if t is ast.Name:
             if e.id in env:
                 return env[e.id]
+            nd = self.rs.nested_def(e.id)
+            if nd is not None and not self.rs.is_local_value(e.id):
+                return Val(fns={self.func_closure(nd, env)})      # a nested helper used as a value
             if e.id in self.rs.locals:
-                return EMPTY          # not yet bound on this path / nested def
-            if e.id in self.rs.enclosing_locals and self.rs.nested_def(e.id) is None:
+                return EMPTY          # not yet bound on this path
+            if e.id in self.rs.enclosing_locals:
                 return Val({("free", e.id, None)})
             r = self.rs.resolve_root(e.id)
             if r is not None and r[0] == "data":
                 return Val({("global", r[1], None)})
+            if r is not None and r[0] == "func":
+                return Val(fns={Closure("func", r[1])})
+            if r is not None and r[0] == "class":
+                return Val(fns={Closure("class", r[1])})
             return EMPTY
         if t is ast.Constant:
             return EMPTY
         if t is ast.Attribute:
             ch = attr_chain(e)
             if ch is not None:
-                r = None if self.rs.is_local_value(ch[0]) else self.rs.resolve_root(ch[0])
+                r = None if (self.rs.is_local_value(ch[0]) or ch[0] in env) else self.rs.resolve_root(ch[0])
+                if r is not None and r[0] == "class" and len(ch[1]) == 1 and ch[1][0] in r[1].methods:
+                    return Val(fns={Closure("func", r[1].methods[ch[1][0]])})     # Class.method as a value (unbound)
                 if r is not None and r[0] in ("ext", "class", "func"):
                     return EMPTY
                 if r is not None and r[0] == "module":
                     tm = r[1]
                     if len(ch[1]) >= 1 and ch[1][0] in module_data_globals(tm):
                         return Val({("global", f"{tm.name}:{ch[1][0]}", None)})
+                    if len(ch[1]) == 1:
+                        t_ = self.program.lookup_export(tm.name, ch[1][0])
+                        if isinstance(t_, FuncInfo):
+                            return Val(fns={Closure("func", t_)})
+                        if isinstance(t_, ClassInfo):
+                            return Val(fns={Closure("class", t_)})
                     return EMPTY
             v = self.ev(e.value, env)
             if e.attr in SCALAR_ATTRS:
                 return EMPTY
-            return Val(with_attr(v.direct, e.attr) | v.inner, v.inner)
+            fns = set()
+            selfname, oc = self.rs.self_name(), self.rs.own_class()
+            if (selfname is not None and oc is not None and isinstance(e.value, ast.Name) and e.value.id == selfname
+                    and e.attr in oc.methods):
+                return Val(fns={Closure("func", oc.methods[e.attr], {"__self__": strip_fns(v)})})   # bound method
+            for cl in v.fns:
+                if cl.kind == "class" and e.attr in cl.code.methods:
+                    fns.add(Closure("func", cl.code.methods[e.attr]))
+            if not fns and e.attr not in METHOD_MUTATES | METHOD_VIEW | METHOD_FRESH:
+                for m_ in self.engine.methods_named(e.attr):            # obj.method as a value, class of obj unknown
+                    fns.add(Closure("func", m_, {"__self__": strip_fns(v)}))
+            return Val(with_attr(v.direct, e.attr) | v.inner, v.inner, fns=fns)
         if t is ast.Subscript:
             v = self.ev(e.value, env)
             self.ev(e.slice, env)
@@ -1056,12 +1156,19 @@ class FuncAnalyzer:
                     self.ev(x, env)
             return EMPTY
         if t is ast.Lambda:
+            # evaluated once with unknown arguments where it is created (a lambda handed to a library routine is
+            # called there) and again, with the actual arguments, wherever the analysis sees it called
             lenv = dict(env)
             a = e.args
-            for x in a.posonlyargs + a.args + a.kwonlyargs + ([a.vararg] if a.vararg else []) + ([a.kwarg] if a.kwarg else []):
-                lenv[x.arg] = EMPTY
+            own = [x.arg for x in a.posonlyargs + a.args + a.kwonlyargs + ([a.vararg] if a.vararg else []) + ([a.kwarg] if a.kwarg else [])]
+            for x in own:
+                lenv[x] = EMPTY
             self.ev(e.body, lenv)
-            return EMPTY
+            cap = {}
+            for n in ast.walk(e.body):
+                if isinstance(n, ast.Name) and n.id in env and n.id not in own:
+                    cap[n.id] = env[n.id]
+            return Val(fns={Closure("lambda", (e, self.ctx_fi), cap)})
         if t is ast.NamedExpr:
             v = self.ev(e.value, env)
             self.assign(e.target, v, env, e)
@@ -1107,12 +1214,146 @@ class FuncAnalyzer:
             return self.call_builtin(q[1], argvals, kwvals, e, env)
         if kind == "method":
             return self.call_method(q[1], q[2], argvals, kwvals, e, env)
-        # call of a local value (callback, stored function): unknown callee
+        # call of a value: a local name bound to a function / bound method / lambda / conditional expression of
+        # such (may-point-to set), a callable parameter (summarised, resolved at the call sites), or unknown
         fv = self.ev(e.func, env)
-        if fv or any(v for _, v in argvals) or any(v for _, v in kwvals):
-            raise AnalysisError(f"{self.fi.where}: call of a computed callable {ast.unparse(e.func)} with tracked "
-                                f"arguments ({self.loc(e)})")
-        return EMPTY
+        return self.call_value(fv, argvals, kwvals, e, env, ast.unparse(e.func))
+
+    def call_value(self, fv, argvals, kwvals, e, env, desc):
+        result = EMPTY
+        resolved = False
+        for cl in sorted(fv.fns, key=lambda c: repr(c)):
+            result = result.join(self.call_closure(cl, argvals, kwvals, e, env))
+            resolved = True
+        unknown = False
+        selfname = self.rs.self_name()
+        for o in fv.all():
+            if o[0] in ("param", "free") and o[2] is None and not (o[0] == "param" and o[1] == selfname):
+                # the callable is (an element / attribute of) a parameter or a captured variable: recorded in the
+                # summary and invoked, with the actual callable, at every call site of this function
+                key = (o[0], o[1])
+                self.res.pcalls.add((key, tuple(argvals), tuple(kwvals)))
+                result = result.join(Val({("callres", f"{o[0]}:{o[1]}", None)}))
+                resolved = True
+            else:
+                unknown = True
+        if unknown or not resolved:
+            if any(v for _, v in argvals) or any(v for _, v in kwvals):
+                raise AnalysisError(f"{self.fi.where}: call of a callable of unknown provenance ({desc}) with tracked "
+                                    f"arguments ({self.loc(e)})")
+            self.res.unresolved_calls.append((desc, self.loc(e)))
+        return result
+
+    def call_closure(self, cl, argvals, kwvals, e, env):
+        if cl.kind == "func":
+            cap = cl.cap()
+            return self.call_repo([cl.code], cap.get("__self__"), argvals, kwvals, e, env, duck=True, captured=cap)
+        if cl.kind == "class":
+            return self.call_ctor(cl.code, argvals, kwvals, e, env)
+        node, dfi = cl.code
+        if self._lam_depth > 6:
+            if any(v for _, v in argvals) or any(v for _, v in kwvals):
+                raise AnalysisError(f"{self.fi.where}: lambda nesting too deep with tracked arguments ({self.loc(e)})")
+            return EMPTY
+        lenv = dict(env) if dfi is self.fi else {}
+        for name, v in cl.captured:
+            lenv[name] = v.join(lenv.get(name))
+        a = node.args
+        pos = [x.arg for x in a.posonlyargs + a.args]
+        allp = pos + [x.arg for x in a.kwonlyargs]
+        for x in allp + ([a.vararg.arg] if a.vararg else []) + ([a.kwarg.arg] if a.kwarg else []):
+            lenv[x] = EMPTY
+        plain = [v for s_, v in argvals if not s_]
+        for i, v in enumerate(plain):
+            if i < len(pos):
+                lenv[pos[i]] = v
+            elif a.vararg is not None:
+                lenv[a.vararg.arg] = container_of(v).join(lenv[a.vararg.arg])
+        for s_, v in argvals:
+            if s_:
+                for n in pos:
+                    lenv[n] = lenv[n].join(v)
+                if a.vararg is not None:
+                    lenv[a.vararg.arg] = container_of(v).join(lenv[a.vararg.arg])
+        for k, v in kwvals:
+            if k is None:
+                for n in allp:
+                    lenv[n] = lenv[n].join(v)
+                if a.kwarg is not None:
+                    lenv[a.kwarg.arg] = v.join(lenv[a.kwarg.arg])
+            elif k in allp:
+                lenv[k] = v
+            elif a.kwarg is not None:
+                lenv[a.kwarg.arg] = container_of(v).join(lenv[a.kwarg.arg])
+        saved = (self.rs, self.ctx_fi)
+        self.rs, self.ctx_fi = self.engine.resolver(dfi), dfi
+        self._lam_depth += 1
+        try:
+            return self.ev(node.body, lenv)
+        finally:
+            self._lam_depth -= 1
+            self.rs, self.ctx_fi = saved
+
+    # -- closures / captured variables / translation across a call boundary ------------------------------
+    def func_closure(self, nfi, env):
+        cap = {}
+        for n in self.engine.free_names(nfi):
+            if n in env:
+                cap[n] = env[n]
+        return Closure("func", nfi, cap)
+
+    def _nested_in_own(self, fi):
+        f = fi.parent
+        while f is not None:
+            if f is self.fi:
+                return True
+            f = f.parent
+        return False
+
+    def free_val(self, fi, var, env, captured):
+        """Value of a variable captured by callee `fi`, as seen at this call site."""
+        v, found = EMPTY, False
+        if captured and var in captured:
+            v, found = v.join(captured[var]), True
+        if self._nested_in_own(fi) and self.ctx_fi is self.fi:
+            if var in env:
+                v, found = v.join(env[var]), True
+            elif var in self.rs.locals:
+                found = True              # not bound yet on this path
+            elif var in self.rs.enclosing_locals:
+                v, found = v.join(Val({("free", var, None)})), True
+        return v
+
+    def translate(self, v, fi, amap, callres, env, captured, depth=0):
+        """A value of callee `fi`'s origin space expressed in this function's origin space."""
+        names = fi.params()
+        idx = {n: i for i, n in enumerate(names)}
+        out, fns = set(), set()
+        for o in v.all():
+            k, n, _a = o
+            if k == "param":
+                av = amap.get(idx.get(n))
+                if av is not None:
+                    out |= av.all()
+                    fns |= av.fns
+            elif k == "global":
+                out.add(o)
+            elif k == "free":
+                fv = self.free_val(fi, n, env, captured)
+                out |= fv.all()
+                fns |= fv.fns
+            elif k == "callres":
+                cv = callres.get(n)
+                if cv is not None:
+                    out |= cv.all()
+                    fns |= cv.fns
+        for cl in v.fns:
+            if depth < 3:
+                cap = {nm: self.translate(cv, fi, amap, callres, env, captured, depth + 1) for nm, cv in cl.captured}
+            else:
+                cap = {}
+            fns.add(Closure(cl.kind, cl.code, cap))
+        return Val(out, out, arr=v.arr and not out, fns=fns)
 
     def map_args(self, fi: FuncInfo, bound, argvals, kwvals):
         """-> dict param index -> Val"""
@@ -1153,7 +1394,7 @@ class FuncAnalyzer:
                 raise AnalysisError(f"{self.fi.where}: call passes unknown keyword {k} to {fi.qualname}")
         return out
 
-    def call_repo(self, fis, bound, argvals, kwvals, e, env, duck=False):
+    def call_repo(self, fis, bound, argvals, kwvals, e, env, duck=False, captured=None):
         self.res.n_repo_calls.hit(e)
         result = EMPTY
         for fi in fis:
@@ -1168,10 +1409,11 @@ class FuncAnalyzer:
                     continue          # this class's method does not accept the call: not the receiver's class
                 raise
             names = fi.params()
+            idx = {n: i for i, n in enumerate(names)}
             for i, effs in sm.mut.items():
                 v = amap.get(i)
                 if v is not None and not (fi.cls is not None and i == 0 and fi.name == "__init__"):
-                    site = (fi.qualname, names[i], bool(v), self.loc(e))
+                    site = (fi.qualname, names[i], bool(v), self.loc(e), fi.where)
                     if site not in self.res.mut_call_sites:
                         self.res.mut_call_sites.append(site)
                 if v is None or not v:
@@ -1181,22 +1423,29 @@ class FuncAnalyzer:
                     self.effect(v.all(), "call", e, attr=attr, via=via)
             for (kind0, nm, via0) in sm.state:
                 self.state_effect(kind0, nm, e, via=f"{fi.qualname}")
-            u = frozenset()
-            for r in sm.ret:
-                if r[0] == "p":
-                    v = amap.get(r[1])
-                    if v is not None:
-                        u |= v.all()
-                elif r[0] == "global":
-                    u |= {("global", r[1], None)}
-                elif r[0] == "free":
-                    # result aliases a variable captured by the callee: a variable of this function (or above)
-                    if r[1] in env:
-                        u |= env[r[1]].all()
-                    elif r[1] in self.rs.enclosing_locals:
-                        u |= {("free", r[1], None)}
-            # effects of nested callee on captured variables at this call site (precise, flow-sensitive)
-            result = result.join(Val(u, u))
+            # writes of a nested callee to variables it captures: judged with the bindings current at this call
+            for var, effs in sm.mut_free.items():
+                tv = self.free_val(fi, var, env, captured)
+                for (attr, kind0, via0) in effs:
+                    self.effect(tv.all(), kind0, e, attr=attr, via=via0 or f"nested function {fi.name}")
+            # calls the callee makes through its callable parameters / captured callables, with the actual callables
+            callres = {}
+            if sm.pcalls:
+                for _pass in (0, 1):
+                    for (key, pargs, pkws) in sorted(sm.pcalls, key=repr):
+                        cv = amap.get(idx.get(key[1])) if key[0] == "param" else self.free_val(fi, key[1], env, captured)
+                        targs = [(s_, self.translate(v, fi, amap, callres, env, captured)) for s_, v in pargs]
+                        tkws = [(k, self.translate(v, fi, amap, callres, env, captured)) for k, v in pkws]
+                        r = self.call_value(cv if cv is not None else EMPTY, targs, tkws, e, env,
+                                            f"{key[1]}: callable {key[0]} of {fi.qualname}")
+                        ck = f"{key[0]}:{key[1]}"
+                        callres[ck] = r.join(callres.get(ck))
+                for ck, effs in sm.mut_callres.items():
+                    cv = callres.get(ck)
+                    if cv is not None and cv:
+                        for (attr, kind0, via0) in effs:
+                            self.effect(cv.all(), "call", e, attr=attr, via=f"{fi.qualname}(result of {ck.split(':')[1]})")
+            result = result.join(self.translate(sm.ret_val, fi, amap, callres, env, captured))
         return result
 
     def call_ctor(self, ci: ClassInfo, argvals, kwvals, e, env):
@@ -1308,6 +1557,10 @@ class FuncAnalyzer:
     def call_method(self, recv_expr, m, argvals, kwvals, e, env):
         recv = self.ev(recv_expr, env)
         vals = [v for _, v in argvals] + [v for _, v in kwvals]
+        # receiver is a repository class held in a local name: `rsp = SomeClass; rsp.method(obj, ...)`
+        hits = [cl.code.methods[m] for cl in recv.fns if cl.kind == "class" and m in cl.code.methods]
+        if hits:
+            return self.call_repo(hits, None, argvals, kwvals, e, env)
         # self.method(...) / cls.method(...)
         selfname = self.rs.self_name()
         oc = self.rs.own_class()
@@ -1373,6 +1626,8 @@ class EffectsEngine:
         self.results = {}
         self._methods = None
         self._attr_class = {}
+        self._resolvers = {}
+        self._free = {}
         self.rounds = 0
 
     def _add(self, fi):
@@ -1417,6 +1672,21 @@ class EffectsEngine:
         res = cls if ok and len(found) == 1 else None
         self._attr_class[key] = res
         return res
+
+    def resolver(self, fi):
+        r = self._resolvers.get(id(fi))
+        if r is None:
+            r = self._resolvers[id(fi)] = Resolver(self.program, fi)
+        return r
+
+    def free_names(self, fi):
+        """Names a nested function reads from enclosing scopes."""
+        r = self._free.get(id(fi))
+        if r is None:
+            own = _assigned_names(fi.node) | set(fi.params())
+            r = {n.id for n in ast.walk(fi.node) if isinstance(n, ast.Name) and n.id not in own}
+            self._free[id(fi)] = r
+        return r
 
     def methods_named(self, m):
         if self._methods is None:
